@@ -48,8 +48,9 @@ Definition same (m o : network) : bool := eqlZ (ser_network m) (ser_network o).
 Fixpoint check_from (n : network) (steps : list (op * network)) : bool :=
   match steps with
   | [] => true
-  | (o, ob) :: r => let n1 := apply o n in same n1 ob && check_from n1 r
+  | (o, ob) :: r => let n1 := apply o n in same n1 ob && wfb n1 && check_from n1 r
   end.
-(* the start network must be well-formed in the model's sense (the domain of the theorems) *)
+(* the start network must be well-formed in the model's sense (the domain of the theorems); the model's network
+   after every step is tested for well-formedness too (an instance of C10_reachable_wf) *)
 Definition check (c : network * list (op * network)) : bool :=
   wfb (fst c) && check_from (fst c) (snd c).
